@@ -15,10 +15,14 @@ META = {
                  "sets/streams are validated by TLC against the contract FilterSetTrace.tla",
     "design_ref": "DESIGN.md section 6, C12",
     "level_text": "Exhaustive within bounds on the model: all multisets of <=3 (thorough: <=4) "
-                  "filters drawn from 8 base filters (matching everything, disabled, literal/negated/regex/type/payload "
-                  "criteria with overlapping matches, disabled with criterion) x 4 kinds, 8 messages, 6 four-message streams "
-                  "(incl. a repeated message); every such set executed on both real implementations and compared with TLC's "
-                  "prediction; random sets of up to 12 filters and streams of up to 40 (200) messages decided by TLC.",
+                  "filters drawn from 12 base filters (matching everything, disabled, literal/negated/regex id, type alone, "
+                  "type + id, negated type, payload, lifecycle, disabled with criterion) as positive/negative/event filters "
+                  "and 3 marker filters; 11 messages of which several share the address (ecu, apid, ctid) and differ in exactly "
+                  "one other field (type, verbose bit, text, lifecycle); streams: an Euler circuit that makes every ordered "
+                  "pair of messages adjacent once (122 messages), the empty stream and 4 short ones; model checking steps the "
+                  "stream filter on sets of <=2 (3) filters; every set executed on both real implementations and compared "
+                  "with TLC's prediction; random sets of up to 12 filters (a third of them with id/type criteria only) and "
+                  "streams of up to 40 (200) messages with runs of messages sharing the address, decided by TLC.",
     "level_note": "Trusted: TLC, the driver's concretisation shared with C11 (abstract filter -> JSON / DLF text, abstract "
                   "message -> DltMessage) and its bookkeeping of stream positions (message index = input position). "
                   "Event filters are applied to match_filters only (streams and searches); filter_as_streams (convert) has no "
@@ -106,7 +110,19 @@ def check(ctx):
     paths = {"no_active_positive": 0, "negative_veto_possible": 0, "event_filters_active": 0, "marker_or_disabled_present": 0,
              "all_four_kinds": 0, "kept_differs_with_events": 0, "nothing_forwarded": 0, "all_forwarded": 0, "some_forwarded": 0}
     distinct = 0
-    nb = len(tab["pool"])
+    # adjacent stream positions whose messages share the address (ecu, apid, ctid): a decision carried over from the
+    # previous message is visible exactly where Keep differs on such a pair
+    addr = [json.dumps([m["ecu"], m["ext"], m["apid"], m["ctid"]]) for m in tab["msgs"]]
+    same_addr_adj = sorted({(st[i], st[i + 1]) for st in tab["streams"] for i in range(len(st) - 1)
+                            if st[i] != st[i + 1] and addr[st[i] - 1] == addr[st[i + 1] - 1]})
+    all_adj = {(st[i], st[i + 1]) for st in tab["streams"] for i in range(len(st) - 1)}
+    nm = len(tab["msgs"])
+    if len(all_adj) != nm * nm or not same_addr_adj:
+        raise c.ToolError("vacuity: the streams do not make every ordered pair of messages adjacent (%d of %d)" % (len(all_adj), nm * nm))
+    paths["ordered_message_pairs_adjacent"] = len(all_adj)
+    paths["same_address_pairs_adjacent"] = len(same_addr_adj)
+    paths["sets_address_and_type_only"] = 0
+    paths["same_address_adjacent_with_different_decision"] = 0
     with open(scn, "w") as f:
         for payload in res.printed.get("SCN", []):
             line = json.loads(payload)
@@ -130,6 +146,11 @@ def check(ctx):
             for w in s["fwd"]:
                 k = "nothing_forwarded" if w["passed"] == 0 else "all_forwarded" if w["filtered"] == 0 else "some_forwarded"
                 paths[k] += 1
+            pn = [x for x in act if x["kind"] in (0, 1)]
+            if pn and all(x["pay"]["k"] == "none" and x["lmin"] < 0 and x["lmax"] < 0 and x["lcs"]["k"] == "none" for x in pn) \
+                    and any(x["type"]["k"] != "none" for x in pn):
+                paths["sets_address_and_type_only"] += 1
+            paths["same_address_adjacent_with_different_decision"] += sum(1 for (a, b) in same_addr_adj if s["keepNo"][a - 1] != s["keepNo"][b - 1])
             if act:
                 distinct += 1
     res.out = ""
@@ -143,7 +164,7 @@ def check(ctx):
     trace = ctx.path("trace.ndjson")
     nrand = 400 if quick else 5000
     info = drive(binp, ["--tables", ctx.path("tables.json"), "--scenarios", scn, "--seed", str(ctx.seed), "--random", str(nrand),
-                        "--sample", "200" if quick else "1000", "--max-len", "40" if quick else "200"], trace)
+                        "--sample", "120" if quick else "600", "--max-len", "40" if quick else "200"], trace)
     st = info["stats"]
     # (e) TLC validates every recorded case against the contract
     v = c.validate_trace(ctx, "filterset", "FilterSetTrace.tla", trace, timeout=3000, xmx="8g")
@@ -155,7 +176,7 @@ def check(ctx):
     ctx.rule = ("an evaluation = one decision of the real code on one message (match_filters on one container, or one input "
                 "message of a filter_as_streams run); a trace = one filter-set case whose recorded events TLC accepted; "
                 "non-trivial = distinct TLC-enumerated filter sets with at least one enabled non-marker filter (each is run "
-                "on 2 containers x 8 messages and 6 streams)")
+                "on 2 containers x 11 messages and on 6 streams, one of which makes every ordered pair of messages adjacent)")
     ctx.exhaustive = True
     ctx.extra["replayed"] = st.get("fast_path", 0) + st.get("drift", 0)
     ctx.extra["fast_path"] = st.get("fast_path", 0)
